@@ -52,7 +52,7 @@ SCOPE = {
     # mc: exhaustive closed-model scope; gen: scenario enumeration; replay: TLC scenarios replayed (None = all); explore: explorer scenarios
     "quick": dict(mc='NPods = 3  PodArchs = {1,3,4,6,9}  Layouts = {1,2}  Caps = {0,1,2}  PoolSets = {1,2,5}  Modes = {"strict", "fallback"}',
                   gen="NPods = 3  PodArchs = {1,2,3,4,5,6,7,8,9,10}  " + ALL, replay=1200, explore=1500,
-                  dmc="NClaims = 2  " + DALL, dgen="NClaims = 3  " + DALL, dreplay=1200, dexplore=1500),
+                  dmc="NClaims = 2  " + DALL, dgen="NClaims = 3  " + DALL, dreplay=None, dexplore=1500),   # all 1008 worlds x 5 variants
     # (pool set 4 = a single pool is a sub-case of the others: left out of the exhaustive run, kept in the enumeration that is replayed;
     #  archetype 8 = two OR-terms relaxes into archetypes 3/4; measured: the full 59 400-scenario scope has ~3.0M states)
     "thorough": dict(mc='NPods = 3  PodArchs = {1,2,3,4,5,6,7,9,10}  Layouts = {1,2,3}  Caps = {0,1,2}  PoolSets = {1,2,3,5}  Modes = {"strict", "fallback"}',
